@@ -161,6 +161,15 @@ def main():
              "functions": ["KSI_AggregationHashChain_aggregate", "KSI_AggregationHashChain_free", "KSI_DataHash_free", "KSI_DataHash_ref"],
              "bound": "the 3-call history OK at level a / failing call at level b / level a again on the same one-link chain, all levels and "
                       "values symbolic, through the public API only; CBMC deallocated-object checks, ASan in the replay"},
+            {"name": "h1c_calcache", "src": "h1c_calcache.c", "global_defines": ["HD_LOG_MAX=48"],
+             "env": ["ctx", "hash_det", "list_wrap", "fmt_stub"], "tus": chain_tus,
+             "unwind": 4, "timeout": 300, "mem_gb": 8, "object_bits": 12, "leak_check": True,
+             "functions": ["KSI_CalendarHashChain_aggregate", "KSI_HashChain_aggregateCalendar", "KSI_CalendarHashChain_free"],
+             "bound": "one-link calendar chain (direction per instance, SHA-1 sized imprints, all bytes symbolic); cache empty, empty with an un-aggregatable "
+                      "chain (no link list), or holding the fresh root; 2 calls",
+             "instances": [I("left_cold", LEFT=1, WARM=0), I("right_warm", LEFT=0, WARM=1), I("left_broken", LEFT=1, WARM=0, BROKEN=1)],
+             "thorough": {"instances": [I("left_cold", LEFT=1, WARM=0), I("right_warm", LEFT=0, WARM=1), I("left_broken", LEFT=1, WARM=0, BROKEN=1),
+                                        I("right_cold", LEFT=0, WARM=0), I("left_warm", LEFT=1, WARM=1)]}},
             {"name": "h2_recycle", "src": "h2_recycle.c", "global_defines": ["HD_LOG_MAX=8"],
              "env": ["ctx", "hash_det", "list_wrap", "fmt_stub"], "tus": ["hash"],
              "unwind": 6, "timeout": 300, "mem_gb": 8, "object_bits": 12, "leak_check": True,
